@@ -111,7 +111,7 @@ fn run_sub(mut args: Args) -> SubResult {
     let cases = cases_of(&shapes, full_upto, args.seed);
     res.bound = if c04 {
         format!(
-            "all {} canonical tree shapes with <= {max_entries} entries, depth <= 3, 4 name classes x extensions {{\"\",x,y}} (file `n` and directory `n` never coexist; `n.x` and `n/` do); {INSTANCES}. Per tree: FileSystem; Embedded via the real expand_dir; zip {{stored,deflated}} x {{dir members, none}} x {{plain, ./ (+ a `./` root member)}} x member orders (all permutations for <= 5 members, else sorted/reversed/dirs-last) in memory + plain-writer archives (start_file + write) deflated in memory and, deflated and stored, file-backed (Zip::open); tar {{dir members, none}} x {{plain, ./}} x the same orders, GNU long-name members for every name > 100 bytes, in memory + 1 tar::Builder archive in memory and file-backed. Queries: every id of the tree, every proper prefix, \"\", 2 absent ids x extensions {{\"\",x,y}} x read/exists(File)/exists(Directory)/read_dir",
+            "all {} canonical tree shapes with <= {max_entries} entries, depth <= 3, 4 name classes x extensions {{\"\",x,y}} (file `n` and directory `n` never coexist; `n.x` and `n/` do); {INSTANCES}. Per tree: FileSystem (the directory itself, and the same tree reached through symbolic links: every file a link, every top-level directory a link); Embedded via the real expand_dir; zip {{stored,deflated}} x {{dir members, none}} x {{plain, ./ (+ a `./` root member)}} x member orders (all permutations for <= 5 members, else sorted/reversed/dirs-last) in memory + plain-writer archives (start_file + write) deflated in memory and, deflated and stored, file-backed (Zip::open); tar {{dir members, none}} x {{plain, ./}} x the same orders, GNU long-name members for every name > 100 bytes, in memory + 1 tar::Builder archive in memory and file-backed. Queries: every id of the tree, every proper prefix, \"\", 2 absent ids x extensions {{\"\",x,y}} x read/exists(File)/exists(Directory)/read_dir",
             shapes.len()
         )
     } else {
